@@ -101,7 +101,7 @@ theorem blake_yields_core (h B w : Nat) (hgeo : (B = 512 ∧ w = 32) ∨ (B = 10
   simp only [Padder.lastblock, hw]
   simp only [hpf] at hok
   rw [hok]
-  simp only [Padder.blocklen, List.length_drop, hlen, if_true]
+  simp only [Padder.finishTail, Padder.blocklen, List.length_drop, hlen, if_true]
   have e1 : st.bitcnt + L - (st.bitcnt + k * B) = L - k * B := by omega
   have e2 : (st.bitcnt + L = st.bitcnt + k * B) ↔ L = k * B := by omega
   simp only [e1, e2]
@@ -167,7 +167,7 @@ theorem blake_yields_blocklen (h B w : Nat) (hgeo : (B = 512 ∧ w = 32) ∨ (B 
   simp only [Padder.lastblock, hw]
   simp only [hpf] at hok
   rw [hok]
-  simp only [Padder.blocklen, List.length_drop, hlen, if_true]
+  simp only [Padder.finishTail, Padder.blocklen, List.length_drop, hlen, if_true]
   have e1 : st.bitcnt + L - (st.bitcnt + k * B) = L - k * B := by omega
   have e2 : (st.bitcnt + L = st.bitcnt + k * B) ↔ L = k * B := by omega
   simp only [e1, e2]
@@ -224,7 +224,7 @@ theorem null_yields_core (B : Nat) (hB : B = 512 ∨ B = 1024) (st : PadState) (
       (Bits.ofNatSz 0 (B - 8 * (Padder.blockAt ⟨.null, B⟩ m k).length))).toBytes).length = B / 8 := by
     simp only [toBytes_length, concat_size, bitsOfBytes_size, Bits.ofNatSz]
     rcases hB with rfl | rfl <;> omega
-  simp only [Padder.blocklen, hlen, ne_eq, not_true_eq_false, if_false, List.length_drop, Nat.sub_self, Nat.lt_irrefl, gt_iff_lt]
+  simp only [Padder.finishTail, Padder.blocklen, hlen, ne_eq, not_true_eq_false, if_false, List.length_drop, Nat.sub_self, Nat.lt_irrefl, gt_iff_lt]
   refine ⟨trivial, ?_⟩
   have hn : (if m.length = 0 then 1 else (8 * m.length + B - 1) / B) = k + 1 := by
     rcases hB with rfl | rfl <;> (split <;> omega)
